@@ -66,10 +66,31 @@ fn verify_raw(t: &Tuple) -> Result<Option<bool>, String> {
 }
 
 fn oracle(c: &Case, st: &mut Stats) -> Result<(), String> {
-  let server = new_server(&c.mds).map_err(|e| e.to_string())?;
+  let mut server = new_server(&c.mds).map_err(|e| e.to_string())?;
   let server2 = Server::new(c.mds.clone()).map_err(|e| e.to_string())?;
   let md = pick_tag(&c.mds, c.md_sel);
   let md2 = pick_tag(&c.mds, c.md_sel2);
+  // the server has a history: a generated subset of the OTHER registered tags (and now and then
+  // an unregistered one) has been punctured before the requests arrive; proofs for the live
+  // tags must verify all the same
+  {
+    let mut n = 0;
+    for (i, t) in c.mds.iter().enumerate() {
+      if *t != md && *t != md2 && (c.seed >> (i % 48)) & 1 == 1 {
+        let _ = server.puncture(*t);
+        n += 1;
+      }
+    }
+    if (c.seed >> 50) & 3 == 0 {
+      let stray = (c.seed >> 52) as u8;
+      if stray != md && stray != md2 {
+        let _ = server.puncture(stray);
+      }
+    }
+    if n > 0 {
+      st.class("other-tags-punctured-before-the-requests");
+    }
+  }
   let pk = server.get_public_key();
   let pkb = pk.serialize_to_bincode().map_err(|e| e.to_string())?;
   let pk2b = server2.get_public_key().serialize_to_bincode().map_err(|e| e.to_string())?;
@@ -355,7 +376,7 @@ pub fn property() -> Property {
   Property {
     id: "C13",
     level: "fault_enumeration",
-    rule: "honest tuples (public key, tag, input point, output point, c, s) from generated servers / inputs / tags incl. repeated identical requests; completeness in original form and after bincode (key) and JSON (evaluation) round trips; nonce check: commitments s*G + c*PK_tag recomputed with curve25519-dalek are pairwise different across all proofs of the case; soundness: each of the six components replaced in turn by another honest value of the same type (other request / tag / server), a neighbouring value (+-1 on scalars, single bit flips at generated positions of every encoding), the identity / zero, an undecodable string, swapped scalars - every such tuple must be rejected (at decode or by the proof equation). Public-key tampering is limited to the base point, the verified tag's entry and another server's whole key. Non-trivial: a tampered tuple whose every component still decodes; distinct by the tuple.",
+    rule: "honest tuples (public key, tag, input point, output point, c, s) from generated servers (with a generated subset of their other tags punctured beforehand) / inputs / tags incl. repeated identical requests; completeness in original form and after bincode (key) and JSON (evaluation) round trips; nonce check: commitments s*G + c*PK_tag recomputed with curve25519-dalek are pairwise different across all proofs of the case; soundness: each of the six components replaced in turn by another honest value of the same type (other request / tag / server), a neighbouring value (+-1 on scalars, single bit flips at generated positions of every encoding), the identity / zero, an undecodable string, swapped scalars - every such tuple must be rejected (at decode or by the proof equation). Public-key tampering is limited to the base point, the verified tag's entry and another server's whole key. Non-trivial: a tampered tuple whose every component still decodes; distinct by the tuple.",
     assumptions: vec!["server keys and proof nonces come from OsRng", "bincode form of proof = c || s, of the key = base, u64 count, (u8, point)*"],
     subs: vec![prop_sub("completeness_soundness_nonce", 1500, 80000, strat, oracle)],
   }
